@@ -10,7 +10,7 @@ W=$(mktemp -d /var/tmp/gxseed.XXXXXX)
 trap 'git -C /repo worktree remove --force "$W/repo" >/dev/null 2>&1 || true; rm -rf "$W"' EXIT
 git -C /repo worktree add --detach "$W/repo" HEAD >/dev/null 2>&1
 # hook files may still be uncommitted in /repo while agents work: copy them
-(cd /repo && git ls-files --others --exclude-standard | grep 'verif_hooks' || true) | while read f; do mkdir -p "$W/repo/$(dirname $f)"; cp "/repo/$f" "$W/repo/$f"; done
+(cd /repo && find pkg cni cmd -name 'verif_hooks*.go' 2>/dev/null) | while read f; do mkdir -p "$W/repo/$(dirname $f)"; cp "/repo/$f" "$W/repo/$f"; done
 git -C "$W/repo" apply "$SD/patch.diff"
 mkdir -p "$W/verif"
 rsync -a --exclude out --exclude evidence /verif/ "$W/verif/" 2>/dev/null || true
